@@ -13,6 +13,7 @@ Names are numbers (alphabetical rank of the entity name, assigned by the caller)
     schema <k> {name abs k s.. m t.. expr|-}*       -> S k   set the schema (expr prefix code: e:<n> | o<k> .. | a . . | x . .)
     collect                    -> T C[ ... ] | T none        Build.collectOf of the schema
     legal n n ..               -> L 0 | L 1         Spec.Legal of the schema
+    forest                     -> F 0 | F 1         the schema satisfies ForestWF (hypothesis of C08_eval_legal_partial)
     implok                     -> I 0 | I 1         hypothesis ImplicitAgree of C08_head_meaning holds for every entity
 -/
 open StepModel.Complex StepModel.Complex.Match
@@ -127,6 +128,33 @@ def parseEntities : Nat → Nat → List String → List Entity → Option Schem
     | _, _, _ => none
   | _, _, _, _ => none
 
+/-- super chain length of an entity (none: longer than the fuel, i.e. a cycle, or an undeclared name) -/
+def depthOf (s : Schema) : Nat → Name → Option Nat
+  | 0, _ => none
+  | f + 1, n => match s.find n with
+    | none => none
+    | some e => match e.supers with
+      | [] => some 0
+      | [p] => (depthOf s f p).map (· + 1)
+      | _ => none
+
+def nodupB (l : List Name) : Bool := l.eraseDups.length == l.length
+
+/-- Bool rendering of `ForestWF` (hypothesis of C08_eval_legal_partial) -/
+def forestOK (s : Schema) : Bool :=
+  let names := s.map (·.name)
+  nodupB names &&
+  s.all (fun e =>
+    decide (e.supers.length ≤ 1) && nodupB e.subs &&
+    e.subs.all (fun m => s.any (fun e' => e'.name == m && e'.supers == [e.name])) &&
+    s.all (fun e' => !(e'.supers == [e.name]) || e.subs.contains e'.name) &&
+    e.supers.all (fun p => names.contains p) &&
+    (match e.expr with
+     | none => true
+     | some x => x.ents.all (fun m => e.subs.contains m) && nodupB x.ents) &&
+    (!e.abstract || !e.subs.isEmpty) &&
+    (depthOf s (s.length + 1) e.name).isSome)
+
 structure DState where
   collect : Collect := []
   mult : List Name := []
@@ -155,6 +183,7 @@ def handle (s : DState) (line : String) : DState × String :=
          let known := match e.expr with | none => [] | some _ => e.name :: leavesL b
          e.subs.filter (fun n => !known.contains n) == e.implicit))
     (s, if ok then "I 1" else "I 0")
+  | ["forest"] => (s, if forestOK s.schema then "F 1" else "F 0")
   | ["wf"] => (s, if s.collect.all headWF then "W 1" else "W 0")
   | "mult" :: rest =>
     match nats rest with
